@@ -221,6 +221,12 @@ def run(ctx):
         kw = gen.rand_settings(rng, 2, 2, with_mld=False)
         kw.pop("psi", None)
         kw.pop("max_step", None)
+        if rng.random() < 0.35:
+            # psi-relaxed distances are not bounded from below by LB_Keogh-like shortcuts: thresholds must still be exact
+            kw["psi"] = rng.randint(1, max(1, min(len(x_) for x_ in ss) - 1)) if min(len(x_) for x_ in ss) >= 2 else 0
+        if equal and rng.random() < 0.5:
+            ss = np.array([x_.tolist() for x_ in ss])       # the same collection as one 2-D array (other C routine)
+            ctx.count("matrices_as_2d_array")
         if not equal:
             kw.pop("penalty", None)
             if rng.random() < 0.4:
@@ -261,5 +267,5 @@ def run(ctx):
                     bad = "changed-below-threshold"
                 if bad:
                     ctx.violation(bad, fn="dtw.distance_matrix(use_c=%s)" % use_c, entry=idx,
-                                  series=[s.tolist() for s in ss], settings=dict(dtwmon.settings_key(kwb)),
+                                  series=[list(map(float, s)) for s in ss], settings=dict(dtwmon.settings_key(kwb)),
                                   with_bound=float(v1), without=float(v0))
